@@ -36,7 +36,9 @@ fn text_string(text_value: &str) -> String {
     result
 }
 
-fn get_text_position(element: &mut SvgElement) -> Result<(f32, f32, bool, LocSpec, Vec<String>)> {
+type TextPosition = (Option<(f32, f32)>, bool, LocSpec, Vec<String>);
+
+fn get_text_position(element: &mut SvgElement) -> Result<TextPosition> {
     let mut t_dx = 0.;
     let mut t_dy = 0.;
     {
@@ -148,13 +150,18 @@ fn get_text_position(element: &mut SvgElement) -> Result<(f32, f32, bool, LocSpe
     } else {
         element.bbox()?
     };
+    // A <text> element positioned with units or percentages (x="10%", y="2em") has no
+    // computable bounding box; that is plain SVG, and its x / y are kept as they are.
+    if bbox.is_none() && element.name == "text" {
+        return Ok((None, outside, text_anchor, text_classes));
+    }
     let (mut tdx, mut tdy) = bbox
         .ok_or_else(|| SvgdxError::MissingBoundingBox(element.to_string()))?
         .locspec(text_anchor);
     tdx += t_dx;
     tdy += t_dy;
 
-    Ok((tdx, tdy, outside, text_anchor, text_classes))
+    Ok((Some((tdx, tdy)), outside, text_anchor, text_classes))
 }
 
 pub fn process_text_attr(element: &SvgElement) -> Result<(SvgElement, Vec<SvgElement>)> {
@@ -171,10 +178,16 @@ pub fn process_text_attr(element: &SvgElement) -> Result<(SvgElement, Vec<SvgEle
 
     let text_value = get_text_value(&mut orig_elem);
 
-    let (tdx, tdy, outside, text_loc, mut text_classes) = get_text_position(&mut orig_elem)?;
+    let (text_pos, outside, text_loc, mut text_classes) = get_text_position(&mut orig_elem)?;
 
-    let x_str = fstr(tdx);
-    let y_str = fstr(tdy);
+    let x_str = text_pos
+        .map(|(x, _)| fstr(x))
+        .or(orig_elem.get_attr("x"))
+        .unwrap_or("0".to_string());
+    let y_str = text_pos
+        .map(|(_, y)| fstr(y))
+        .or(orig_elem.get_attr("y"))
+        .unwrap_or("0".to_string());
     let mut text_elements = Vec::new();
     let mut lines: Vec<_> = text_value.lines().collect();
     let line_count = lines.len();
